@@ -143,12 +143,51 @@ def outcome(util, fn, s):
         return type(e).__name__
 
 
+def _fast_outcome(util, fn):
+    """the same as `outcome(util, fn, .)` with the common paths inlined (25 M calls per run)"""
+    if fn == 'host':
+        f = util.is_valid_hostname
+
+        def go(s):
+            try:
+                return 'ok_True' if f(s) else 'ok_False'
+            except Exception as e:      # noqa: BLE001
+                return type(e).__name__
+        return go
+    if fn == 'proto':
+        f = util.validate_protocol
+
+        def go(s):
+            try:
+                r = f(s)
+            except ValueError:
+                return 'ValueError'
+            except Exception as e:      # noqa: BLE001
+                return type(e).__name__
+            return 'ok_' + enc(r)
+        return go
+    if fn == 'port':
+        f = util.validate_port
+
+        def go(s):
+            try:
+                r = f(s)
+            except ValueError:
+                return 'ValueError'
+            except Exception as e:      # noqa: BLE001
+                return type(e).__name__
+            return f'ok_{int(r)}'
+        return go
+    return lambda s: outcome(util, fn, s)
+
+
 def sweep_runs(util, fn, pre, suf, lo, hi):
     """[[lo, hi, outcome], ...] covering lo..hi"""
+    go = _fast_outcome(util, fn)
     runs = []
     start, cur = lo, None
     for cp in range(lo, hi + 1):
-        o = outcome(util, fn, pre + chr(cp) + suf)
+        o = go(pre + chr(cp) + suf)
         if o != cur:
             if cur is not None:
                 runs.append([start, cp - 1, cur])
@@ -210,7 +249,7 @@ def compute_tables(repo, contexts=None, procs=None, memo=True):
     step = 0x22000
     jobs = [(n, fn, pre, suf, lo, min(lo + step, NCP) - 1)
             for n, (fn, pre, suf) in contexts.items() for lo in range(0, NCP, step)]
-    procs = procs or max(1, min(8, (os.cpu_count() or 2) // 2))
+    procs = procs or max(1, min(12, (os.cpu_count() or 2) - 4))
     if procs > 1:
         with Pool(procs) as pool:
             outs = pool.map(_job, jobs, chunksize=2)
